@@ -21,6 +21,10 @@ CHECKS["C01"] = {
          "params": {"profile": "smooth", "steps": {"quick": 10, "thorough": 20},
                     "maxTris": {"quick": 2000, "thorough": 12000}},
          "case_timeout": 300},
+        {"name": "touch", "variant": "asan", "harness": "c01_topology.cpp",
+         "cases": {"quick": 1200, "thorough": 30000},
+         "params": {"profile": "touch", "steps": {"quick": 4, "thorough": 8}, "maxTris": 3000},
+         "case_timeout": 300},
     ],
     "assumptions": ["the topology checker in harness/common/oracles.h implements the clauses of C01 literally",
                     "g++ -fsanitize=address,undefined build of /repo's working tree, -DNDEBUG, MANIFOLD_PAR=-1"],
